@@ -148,7 +148,13 @@ def run(ctx):
                 "per-step certificate on reduced abstractions with BC grids different from the tube grid; (e) the coupled thermohydraulic solver on a 2D tube with axisymmetric flux vs the same tube in 1D. one case = one "
                 "pair/triple or one certified step; all are non-trivial")
     ctx.trusted += ["scipy spsolve (outputs compared); harness reference for boundary data at the documented slice coordinates"]
+    from harness import translators as _tr
+    ctx.trusted += ["translator harness/translators/thermalstencil.py (Python ast -> Gallina; numpy slicing / edge padding / C-order flattening and "
+                    "scipy.sparse.diags / coo_matrix placement read as index shifts)"]
+    _tr.import_all()
+    ctx.gen("ThermalStencil", _tr.REGISTRY["ThermalStencil"])
     ctx.prove("C12")
+    ctx.prove("C02_stencil")
     if ctx.tier == "thorough":
         ctx.coqchk("C12")
     rng = ctx.rng
